@@ -4,6 +4,7 @@
    `recover` (secp256k1 recovery over the decision hash + the network type's
    address derivation) and the address type are universally quantified. *)
 From Goloop Require Import lib.Bytes Model_Quorum Proofs_Quorum Model_BTPProof Proofs_BTPProof.
+From Goloop Require Import Link_C29.
 Open Scope nat_scope.
 
 (* `valid <= 2*len(Validators)/3` is refused; passing it is exactly 3*valid > 2*n *)
@@ -121,3 +122,32 @@ Theorem C29_accept_iff_ground_truth :
     3 * count_present sigs > 2 * length vals.
 Proof. exact bt_accept_iff. Qed.
 Print Assumptions C29_accept_iff_ground_truth.
+
+(* ---- kernel links (Link_C29.v).  ntmNotEnoughParts and ntmPartIndexOutOfRange are
+   re-generated from btp/ntm/secp256k1proof.go on every run (tools/go2coq); the
+   threshold ntm_too_few and the index guard of verify_part, used in all theorems above,
+   ARE the tests of the current Go code ---- *)
+Theorem C29_kernel_ntmNotEnoughParts : forall valid validators : nat,
+  (Z.of_nat validators <= 4611686018427387903)%Z ->
+  ntm_too_few valid validators = ntmNotEnoughParts (Z.of_nat valid) (Z.of_nat validators).
+Proof. exact ntm_too_few_is_ntmNotEnoughParts. Qed.
+Print Assumptions C29_kernel_ntmNotEnoughParts.
+
+(* VerifyPart refuses exactly the indices the kernel refuses, before anything else *)
+Theorem C29_kernel_ntmPartIndexOutOfRange :
+  forall (sigT addrT : Type) (addr_eqb : addrT -> addrT -> bool)
+         (recover : decision -> sigT -> option addrT)
+         (d : decision) (vals : list (option addrT)) (idx : Z) (s : option sigT),
+    ntmPartIndexOutOfRange idx (Z.of_nat (length vals)) = true ->
+    verify_part addr_eqb recover d vals idx s = None.
+Proof. exact (@verify_part_refuses_out_of_range). Qed.
+Print Assumptions C29_kernel_ntmPartIndexOutOfRange.
+
+Theorem C29_kernel_index_guard : forall (idx : Z) (n : nat),
+  ((idx <? 0) || (Z.of_nat n <=? idx))%Z%bool = ntmPartIndexOutOfRange idx (Z.of_nat n).
+Proof. exact index_guard_is_ntmPartIndexOutOfRange. Qed.
+Print Assumptions C29_kernel_index_guard.
+
+Theorem C29_kernel_params : Link_C29.kernel_params_pinned.
+Proof. exact Link_C29.kernel_params_ok. Qed.
+Print Assumptions C29_kernel_params.
